@@ -39,4 +39,58 @@ REG = {
             enum("pure", "TestC01Sweep", 4, 8),
         ],
     },
+    "C02": {
+        "level": "exploration",
+        "technique": "differential testing against an independent reference validator (rapid mutations of valid frames + exhaustive enumeration over a special-byte alphabet); native fuzzing in the thorough tier",
+        "level_text": "Differential exploration: every generated or enumerated byte string is decoded by the library and by an independent reference validator; accept/reject must agree and on accept every header field and the body are compared. Quick enumerates ~1M frames exhaustively over the special-byte alphabet plus tens of thousands of mutated valid frames; thorough enumerates ~60M and fuzzes.",
+        "level_note": "Trusts harness/ref/frame.go as the reading of the standard (tolerating only a raw 0x7D checksum byte, as the property states); which error value is returned is not compared; EncryptMethod may be bit 10 or bits 10..12; phone digits compared modulo leading zeros and only for BCD nibbles.",
+        "rule": "mutations (bit flip, substitution, truncation, extension, wrong length field, header cut, attribute bits) of reference-built valid frames of both versions with and without package fields, random strings over a special-heavy alphabet, and the exhaustive enumeration of wire strings over {7D,01,02,00,41,FF}; non-trivial = the reference accepts the frame or the frame is a mutation/enumeration neighbour of a valid frame",
+        "assumptions": ["reference validator harness/ref/frame.go"],
+        "required_buckets": {"any": ["accept", "reject_escape", "reject_checksum", "reject_header", "reject_length", "valid_chk7d", "enum", "enum_chk7d"]},
+        "parts": [
+            rapid("pure", "TestC02", 5000, 150000),
+            enum("pure", "TestC02Enum", 16, 16),
+            fuzz("pure", "FuzzC02", 90),
+        ],
+    },
+    "C07": {
+        "level": "exploration",
+        "technique": "property-based round-trip testing (rapid): Parse(Encode(v)) == v and Encode(Parse(Encode(v))) == Encode(v) for 34 message types with per-type in-domain generators; helper round trips against independent readings",
+        "level_text": "Generated-input exploration with one constructive generator per two-way message type (all three 0x0100 versions, 2013/2019 0x0102, five active-safety dialects, list lengths 0..max, every terminal-parameter field by reflection plus unknown IDs). Each value is encoded, framed, decoded through the real frame decoder, parsed into a fresh receiver and compared field by field; the re-encoding must be byte-identical.",
+        "level_note": "Domain restrictions derived from the parsers: strings are ASCII/GB2312 without NUL at either end, attachment file names non-empty, string parameters non-empty (a zero-length parameter is not re-emitted by the encoder), count/length fields equal to their lists, bodies <= 1023 bytes. Derived flag structs are compared in C08, not here.",
+        "rule": "one rapid generator per two-way type (type drawn uniformly); non-trivial = value has >= 2 list elements, or non-ASCII text, or a non-default dialect, or a 2019 header",
+        "assumptions": ["comparison ignores derived fields (AlarmSignDetails/StatusSignDetails) and func fields; nil and empty lists are identified"],
+        "required_buckets": {"any": ["P0x9212:list>=3", "P0x8800:list0", "P0x8103", "T0x1210:dialect2", "P0x9208:dialect5", "T0x0100", "T0x0704:list>=3", "util_gbk", "util_time"]},
+        "parts": [
+            rapid("pure", "TestC07", 6000, 150000),
+            rapid("pure", "TestC07Utils", 3000, 50000, qs=2, ts=4),
+        ],
+    },
+    "C16": {
+        "level": "exploration",
+        "technique": "property-based testing (rapid) of the missing-range computation against a reference interval complement, exhaustive enumeration of all receive patterns for sizes <= 12; the driven (socket-level) part is added with the attachment engine",
+        "level_text": "Generated sets of pairwise disjoint received ranges (0..600 cut points, sizes up to 2^32-1, any insertion order) compared with an independent complement-of-intervals; every subset of unit cells for file sizes <= 12 enumerated exhaustively.",
+        "level_note": "Pure part calls Package.StatisticalMissSegments directly on a Package built the way stageStreamData fills it (CurrentSize = sum of lengths).",
+        "rule": "received ranges built from drawn cut points, each cell received or not by one of four modes, arrival order permuted; non-trivial = at least 2 gaps",
+        "assumptions": ["reference complement harness/ref/intervals.go"],
+        "required_buckets": {"any": ["gaps_0", "gaps_2-3", "gap_at_start", "gap_at_end", "single_byte_gap", "size_near_2^32"]},
+        "parts": [
+            rapid("pure", "TestC16", 5000, 150000),
+            enum("pure", "TestC16Enum", 1, 1),
+        ],
+    },
+    "C17": {
+        "level": "exploration",
+        "technique": "property-based testing (rapid) against an independent JT/T 1078 packet builder, exhaustive truncation enumeration for all 16 data types x 16 marks, differential fuzzing against an independent walker (thorough)",
+        "level_text": "Streams of 1..8 reference-built packets (all data types 0..15, full-range header fields, payload 0..950 and up to 65535) decoded step by step with a fresh Packet: every field, the payload and the remainder are compared; every truncation point is classified; arbitrary byte strings must be rejected as unqualified.",
+        "level_note": "What the remainder is on a 'too short' error is pinned by an existing test and not asserted; reused receivers are C03's.",
+        "rule": "rapid streams of reference-built packets, optional cut at any length (biased into the last header), optional trailing bytes, plus arbitrary strings; non-trivial = stream of >= 2 packets with different header lengths, or a cut inside a header, or >= 16 arbitrary bytes without the marker",
+        "assumptions": ["reference builder harness/ref/rtp.go"],
+        "required_buckets": {"any": ["dt0", "dt3", "dt4", "dt9", "cut_in_header", "cut_in_payload", "junk_unqualified", "multi", "trailing_bytes"]},
+        "parts": [
+            rapid("pure", "TestC17", 4000, 120000),
+            enum("pure", "TestC17Enum", 1, 1),
+            fuzz("pure", "FuzzC17", 60),
+        ],
+    },
 }
